@@ -4,6 +4,7 @@
 #include "replay.hpp"
 #include <opm/common/utility/MemPacker.hpp>
 #include <bitset>
+#include <string>
 #include <sstream>
 #include <vector>
 template <std::size_t N>
@@ -26,6 +27,26 @@ int main(int argc, char** argv)
 {
     Replay r(argc, argv);
     const unsigned long long bits = r.has("a.bits") ? (unsigned long long) r.num("a.bits") : (r.has("verif_in_data.bits") ? (unsigned long long) r.num("verif_in_data.bits") : ~0ull);
+    if (r.is("str_")) {
+        using P = Opm::Serialization::detail::Packing<false, std::string>;
+        std::ostringstream w; bool ok = true;
+        for (const std::string& a : { std::string("a"), std::string("hello world"), std::string(300, 'x') + "end", std::string("nul\0inside", 10), std::string() }) {
+            std::vector<char> buf(a.size() + 64, 0x55);
+            std::size_t p = 5, q = 5;
+            const auto sz = P::packSize(a);
+            P::pack(a, buf, p);
+            std::string b = "previous content";
+            P::unpack(b, buf, q);
+            if (b != a || p - 5 != sz || q != p) {
+                ok = false;
+                w << "string of " << a.size() << " characters -> pack/unpack -> " << b.size() << " characters" << (b == a ? "" : " (content differs)")
+                  << "; packSize " << sz << ", pack moved the position by " << p - 5 << ", unpack by " << q - 5;
+                break;
+            }
+        }
+        if (ok) w << "strings of several lengths round-trip and consume exactly packSize bytes";
+        return r.verdict(ok, w.str());
+    }
     if (r.is("17")) return run<17>(r, bits);
     if (r.is("10")) return run<10>(r, bits);
     if (r.is("4"))  return run<4>(r, bits);
